@@ -1,5 +1,6 @@
 (* Model of genesis export / import of the custom modules, as coded:
-     x/evm/genesis.go        ExportGenesis (IterateContracts over the code-hash store), InitGenesis
+     x/evm/genesis.go        ExportGenesis (IterateContracts over the code-hash store, then the owners of storage
+                             that hold no code: repaired behaviour, see known_findings.d/C18.json), InitGenesis
      x/feemarket/genesis.go  params only (the base fee is a param)
      x/cpc/genesis.go        ExportGenesis = params + two booleans; InitGenesis re-deploys from the booleans
      x/vauth/module.go       ExportGenesis = DefaultGenesis() (empty), InitGenesis does nothing
@@ -87,12 +88,32 @@ Definition slots_of (addr : Z) (st : zmap Z) : list (Z * Z) :=
 
 Definition code_of (h : Z) (code : zmap Z) : Z := match zget h code with Some c => c | None => CODE_EMPTY end.
 
-(* x/evm ExportGenesis: one account per entry of the code-hash store (non-contract accounts are ignored,
-   so storage held by an address without code is not exported) *)
-Definition export_evm (e : evm_state) : list gen_acct :=
+(* Keeper.IterateStorageOwners: the owner (first 20 key bytes) of every stored slot, in key order, an owner equal to
+   the one reported just before is skipped *)
+Fixpoint owners (prev : option Z) (st : zmap Z) : list Z :=
+  match st with
+  | [] => []
+  | (k, _) :: r =>
+      let a := k / SLOT in
+      if (match prev with Some p => p =? a | None => false end) then owners (Some a) r else a :: owners (Some a) r
+  end.
+
+(* first loop of x/evm ExportGenesis: one account per entry of the code-hash store with a non-empty hash *)
+Definition export_contracts (e : evm_state) : list gen_acct :=
   flat_map (fun ah => let '(a, h) := ah in
               if h =? EMPTYH then [] else [GA a (code_of h (e_code e)) (slots_of a (e_storage e))])
            (e_codehash e).
+
+(* exportedContracts of ExportGenesis *)
+Definition is_exported_contract (e : evm_state) (a : Z) : bool :=
+  existsb (fun ah => (fst ah =? a) && negb (snd ah =? EMPTYH)) (e_codehash e).
+
+(* second loop: owners of storage that were not exported as contracts, with empty code *)
+Definition export_storage_only (e : evm_state) : list gen_acct :=
+  map (fun a => GA a CODE_EMPTY (slots_of a (e_storage e)))
+      (filter (fun a => negb (is_exported_contract e a)) (owners None (e_storage e))).
+
+Definition export_evm (e : evm_state) : list gen_acct := export_contracts e ++ export_storage_only e.
 
 (* fixed addresses of x/cpc/types *)
 Record cpc_consts := CC {
@@ -169,3 +190,86 @@ Definition import (k : cpc_consts) (v : env) (g : gen) : res cstate :=
       | Ok c => Ok (St e (g_fm g) c [])          (* vauth InitGenesis: nothing *)
       end
   end.
+
+(* ------------------------------------------------------------------ what a user can ask the evm module *)
+(* gRPC Code / eth_getCode: code under the account's code hash *)
+Definition q_code (e : evm_state) (a : Z) : Z :=
+  match zget a (e_codehash e) with Some h => code_of h (e_code e) | None => CODE_EMPTY end.
+(* gRPC Storage / eth_getStorageAt (None reads as the zero word; kept apart because the export lists present slots) *)
+Definition q_storage (e : evm_state) (a slot : Z) : option Z := zget (skey a slot) (e_storage e).
+
+(* ------------------------------------------------------------------ invariant of the stores (decidable; evaluated on
+   every store content the driver reads from a real application) *)
+Fixpoint sortedb {V} (m : zmap V) : bool :=
+  match m with
+  | [] => true
+  | (k, _) :: r => match r with [] => true | (k', _) :: _ => (k <? k') && sortedb r end
+  end.
+
+(* every entry of the code-hash store has a non-empty hash and its code is in the code store under that hash *)
+Definition code_okb (v : env) (e : evm_state) : bool :=
+  forallb (fun ah => negb (snd ah =? EMPTYH) &&
+                     match zget (snd ah) (e_code e) with
+                     | Some c => negb (c =? CODE_EMPTY) && (v_hash v c =? snd ah)
+                     | None => false
+                     end) (e_codehash e).
+
+Definition wfb_evm (v : env) (e : evm_state) : bool :=
+  (v_hash v CODE_EMPTY =? EMPTYH) && sortedb (e_codehash e) && sortedb (e_storage e) && code_okb v e.
+
+Definition wfb (v : env) (s : cstate) : bool :=
+  wfb_evm v (s_evm s) && sortedb (c_metas (s_cpc s)) && sortedb (c_denoms (s_cpc s)) && sortedb (c_allow (s_cpc s))
+  && sortedb (s_proofs s).
+
+(* ------------------------------------------------------------------ store-level operations a block history is made of *)
+Fixpoint zdel {V} (k : Z) (m : zmap V) : zmap V :=
+  match m with
+  | [] => []
+  | (k', v') :: r => if k =? k' then r else (k', v') :: zdel k r
+  end.
+
+Inductive op :=
+| OSetCode (a c : Z)                 (* commit of a created contract: Keeper.SetCodeHash a (keccak c) ; Keeper.SetCode (keccak c) c *)
+| OSetState (a slot val : Z)         (* Keeper.SetState with a 32-byte value: a zero word is stored, not deleted *)
+| ODestroy (a : Z)                   (* cStateDb.DestroyAccount: DeleteCodeHash and every slot of the account deleted *)
+| OEvmParams (p : Z)
+| OFm (f : fm_state)                 (* fee market: SetParams (governance) / EndBlock base fee update *)
+| OCpcParams (p : Z)
+| ODeployErc20 (addr denom : Z) (m : meta)   (* Keeper.DeployErc20CustomPrecompiledContract at the next dynamic address *)
+| ODeployStaking (m : meta)          (* Keeper.DeployStakingCustomPrecompiledContract (message or genesis) *)
+| OApprove (owner spender amt : Z)   (* Keeper.SetErc20CpcAllowance: zero deletes *)
+| OProof (a p : Z).                  (* vauth Keeper.SaveProofExternalOwnedAccount *)
+
+Definition apply_op (k : cpc_consts) (v : env) (s : cstate) (o : op) : cstate :=
+  let e := s_evm s in
+  let c := s_cpc s in
+  match o with
+  | OSetCode a cd =>
+      let h := v_hash v cd in
+      let ch := if h =? EMPTYH then zdel a (e_codehash e) else zset a h (e_codehash e) in
+      let co := if cd =? CODE_EMPTY then zdel h (e_code e) else zset h cd (e_code e) in
+      St (Evm (e_params e) ch co (e_storage e)) (s_fm s) c (s_proofs s)
+  | OSetState a slot val =>
+      St (Evm (e_params e) (e_codehash e) (e_code e) (zset (skey a slot) val (e_storage e))) (s_fm s) c (s_proofs s)
+  | ODestroy a =>
+      St (Evm (e_params e) (zdel a (e_codehash e)) (e_code e) (filter (fun kv => negb (in_addr a (fst kv))) (e_storage e)))
+         (s_fm s) c (s_proofs s)
+  | OEvmParams p => St (Evm p (e_codehash e) (e_code e) (e_storage e)) (s_fm s) c (s_proofs s)
+  | OFm f => St e f c (s_proofs s)
+  | OCpcParams p => St e (s_fm s) (Cpc p (c_metas c) (c_denoms c) (c_allow c)) (s_proofs s)
+  | ODeployErc20 addr denom m =>
+      if zhas denom (c_denoms c) then s
+      else match deploy addr m c with
+           | Ok c' => St e (s_fm s) (Cpc (c_params c') (c_metas c') (zset denom addr (c_denoms c')) (c_allow c')) (s_proofs s)
+           | Panic => s
+           end
+  | ODeployStaking m =>
+      match deploy (k_staking_addr k) m c with Ok c' => St e (s_fm s) c' (s_proofs s) | Panic => s end
+  | OApprove owner spender amt =>
+      St e (s_fm s) (Cpc (c_params c) (c_metas c) (c_denoms c)
+                         (if amt =? 0 then zdel (akey owner spender) (c_allow c) else zset (akey owner spender) amt (c_allow c)))
+         (s_proofs s)
+  | OProof a p => St e (s_fm s) c (zset a p (s_proofs s))
+  end.
+
+Definition run (k : cpc_consts) (v : env) (ops : list op) (s : cstate) : cstate := fold_left (apply_op k v) ops s.
